@@ -941,6 +941,24 @@ def _reduce_and_extend_loops(fn: FuncInfo) -> int:
                 tgt = copy.deepcopy(g.target)
                 _set_ctx(tgt, ast.Store())
                 repl = [ast.For(target=tgt, iter=g.iter, body=body, orelse=[])]
+            # `d = {K: V for x in XS if C}`  ==>  `d = {}` / `for x in XS: if C: d[K] = V`   (a later key overwrites an earlier one either way)
+            if repl is None and isinstance(st, (ast.Assign, ast.AnnAssign)) and isinstance(st.value, ast.DictComp) and len(st.value.generators) == 1 \
+                    and not st.value.generators[0].is_async:
+                tgt0 = st.targets[0] if isinstance(st, ast.Assign) and len(st.targets) == 1 else (st.target if isinstance(st, ast.AnnAssign) else None)
+                if isinstance(tgt0, ast.Name):
+                    comp = st.value
+                    g = comp.generators[0]
+                    store = ast.Assign(targets=[ast.Subscript(value=ast.Name(id=tgt0.id, ctx=ast.Load()), slice=comp.key, ctx=ast.Store())], value=comp.value)
+                    body2: list[ast.stmt] = [store]
+                    for c in reversed(g.ifs):
+                        body2 = [ast.If(test=c, body=body2, orelse=[])]
+                    tgt = copy.deepcopy(g.target)
+                    _set_ctx(tgt, ast.Store())
+                    if isinstance(st, ast.AnnAssign):
+                        init = ast.AnnAssign(target=ast.Name(id=tgt0.id, ctx=ast.Store()), annotation=st.annotation, value=ast.Dict(keys=[], values=[]), simple=1)
+                    else:
+                        init = ast.Assign(targets=[ast.Name(id=tgt0.id, ctx=ast.Store())], value=ast.Dict(keys=[], values=[]))
+                    repl = [init, ast.For(target=tgt, iter=g.iter, body=body2, orelse=[])]
             if repl is not None:
                 for r_ in repl:
                     for x in ast.walk(r_):
